@@ -211,6 +211,9 @@ class CallMixin:
     def instantiate(self, cls, args, kwargs):
         if issubclass(cls, BaseException):
             return ExcVal(cls, tuple(args))
+        import struct as _struct
+        if cls is _struct.Struct and all(isinstance(a, str) for a in args):
+            return _struct.Struct(*args)
         if cls is io.BytesIO:
             data = args[0] if args else b""
             if isinstance(data, Ref) and isinstance(self.p.deref(data), HByteArray):
@@ -422,6 +425,12 @@ class CallMixin:
         name = getattr(f, "__name__", None)
         mod = getattr(f, "__module__", None)
         qn = getattr(f, "__qualname__", name)
+        # pure library functions on concrete arguments are simply evaluated (math.log, math.ceil, b64decode ...)
+        if mod in ("math", "binascii", "base64", "zlib") and not any(isinstance(x, (Sym, Ref)) for x in list(args) + list(kwargs.values())):
+            try:
+                return self.import_value(f(*args, **kwargs))
+            except Exception as e:      # the library's own error for these arguments
+                raise PyExc(type(e))
         # hashlib / hmac
         if name and name.startswith("openssl_"):
             alg = name[len("openssl_"):]
@@ -566,9 +575,9 @@ class CallMixin:
         return tuple(self.iterate(a[0])) if a else ()
 
     def b_set(self, a, k):
-        items = self.iterate(a[0]) if a else []
-        if any(isinstance(x, (Sym, Ref)) for x in items):
-            raise Undecided("set of symbolic values")
+        items = self.dedupe(self.iterate(a[0])) if a else []
+        if any(isinstance(x, (Sym, Ref)) or (isinstance(x, tuple) and any(isinstance(u, (Sym, Ref)) for u in x)) for x in items):
+            return self.p.alloc(HList(items))
         return frozenset(items)
 
     b_frozenset = b_set
@@ -836,7 +845,42 @@ class CallMixin:
         return self.b_randbits(a, k)
 
     # ------------------------------------------------------------------ builtin methods
+    def struct_method(self, st, name, args, kwargs):
+        """struct.Struct(fmt) objects with fixed-size integer formats"""
+        fmt = st.format
+        end = "little" if fmt[:1] == "<" else "big" if fmt[:1] in ">!" else __import__("sys").byteorder
+        codes = fmt[1:] if fmt[:1] in "<>!=@" else fmt
+        size = {"B": 1, "H": 2, "L": 4, "I": 4, "Q": 8}
+        if any(c not in size for c in codes):
+            raise Undecided("struct format %r" % fmt)
+        total = sum(size[c] for c in codes)
+        if name == "size":
+            return total
+        if name == "pack":
+            return self.b_pack([fmt] + list(args), {})
+        if name in ("unpack", "unpack_from"):
+            data = args[0]
+            if isinstance(data, Ref) and isinstance(self.p.deref(data), HByteArray):
+                data = self.p.deref(data).val
+            off = (args[1] if len(args) > 1 else kwargs.get("offset", 0)) if name == "unpack_from" else 0
+            if name == "unpack" and not self.cond(self.compare_vals("Eq", self.length(data), total)):
+                import struct
+                raise PyExc(struct.error)
+            out = []
+            for c in codes:
+                piece = self.slice_of(data, off, self.binop(ast.Add(), off, size[c]), None)
+                if not self.cond(self.compare_vals("Eq", self.length(piece), size[c])):
+                    import struct
+                    raise PyExc(struct.error)
+                out.append(self.int_from_bytes(piece, end) if not isinstance(piece, bytes) else int.from_bytes(piece, end))
+                off = self.binop(ast.Add(), off, size[c])
+            return tuple(out)
+        raise Undecided("struct method " + name)
+
     def call_method(self, v, name, args, kwargs):
+        import struct as _struct
+        if isinstance(v, _struct.Struct):
+            return self.struct_method(v, name, args, kwargs)
         if isinstance(v, TInt):
             v = v.val
         if isinstance(v, Ref):
@@ -914,6 +958,9 @@ class CallMixin:
     def list_method(self, ref, o, name, args, kwargs):
         if name == "append":
             o.items.append(args[0])
+            return None
+        if name == "add":       # a set of symbolic values is kept as a duplicate-free list
+            o.items = self.dedupe(o.items + [args[0]])
             return None
         if name == "extend":
             o.items.extend(self.iterate(args[0]))
